@@ -98,10 +98,12 @@ package boltz
 // re-read after the write; for update the initial state read before it) is registered last on the context's transaction,
 // preceded by exactly one for the parent store if there is one
 //@ func (*BaseStore).Create
-//@   props C08 C07 C03
+//@   props C08 C07 C03 C15
 //@   errflow
 //@   nosafety
 //@   modifies *, ocCnt, ocFn, ocRecv, cxN, cxWho, cxPhase, cxCtx, cxPersist, edDone
+//@   callpre[persists-a-new-entity-into-the-bucket-just-created] PersistEntity@1: arg0 == entity && arg1 != nil && arg1.Bucket == local(bucket) && arg1.IsCreate && arg1.Id == entId(ref(entity)) && arg1.MutateContext == ctx && arg1.Store == store.impl && arg1.FieldChecker == nil
+//@   callpre[the-entity's-bucket-is-made-for-its-id] getOrCreateEntityBucket@1: recv == store && str(arg1) == entId(ref(entity))
 //@   lensures[persist-then-after-update] indexingContext != nil && !holderFailed[indexingContext.ErrHolder] ==> cxPersist >= old(cxN) && cxN >= cxPersist + len(store.Indexer.constraints) && cxSegment(cxN, store.Indexer.constraints, len(store.Indexer.constraints), 2, ref(indexingContext))
 //@   lensures[the-row's-context] indexingContext != nil ==> indexingContext.IsCreate && str(indexingContext.RowId) == entId(ref(entity)) && indexingContext.Ctx == ctx && indexingContext.Indexer == store.Indexer
 //@   lensures[holder] bucket != nil && bucket.Err != nil ==> result != nil
@@ -117,10 +119,12 @@ package boltz
 //@   ensures[unhandled-registers-nothing] !result0 ==> ocSame()
 //@   ensures[unhandled-notifies-no-constraint] !result0 ==> cxSame()
 //@ func (*BaseStore).Update
-//@   props C08 C07 C03
+//@   props C08 C07 C03 C15
 //@   errflow
 //@   nosafety
 //@   modifies *, ocCnt, ocFn, ocRecv, cxN, cxWho, cxPhase, cxCtx, cxPersist, edDone
+//@   callpre[a-child-store-strategy-sees-the-same-update] HandleUpdate@1: arg0 == ctx && arg1 == entity && arg2 == checker
+//@   callpre[persists-into-the-entity's-existing-bucket-with-the-caller's-field-checker] PersistEntity@1: arg0 == entity && arg1 != nil && arg1.Bucket == local(bucket) && !arg1.IsCreate && arg1.Id == entId(ref(entity)) && arg1.MutateContext == ctx && arg1.Store == store.impl && arg1.FieldChecker == checker
 //@   lensures[before-update-precedes-the-persist] indexingContext != nil && !holderFailed[indexingContext.ErrHolder] ==> cxPersist >= old(cxN) + len(store.Indexer.constraints) && cxSegment(cxPersist, store.Indexer.constraints, len(store.Indexer.constraints), 1, ref(indexingContext))
 //@   lensures[after-update-follows-the-persist] indexingContext != nil && !holderFailed[indexingContext.ErrHolder] ==> cxN >= cxPersist + len(store.Indexer.constraints) && cxSegment(cxN, store.Indexer.constraints, len(store.Indexer.constraints), 2, ref(indexingContext))
 //@   lensures[the-row's-context] indexingContext != nil ==> !indexingContext.IsCreate && str(indexingContext.RowId) == entId(ref(entity)) && indexingContext.Ctx == ctx && indexingContext.Indexer == store.Indexer
